@@ -30,6 +30,7 @@ def cfgOfArgs (kv : List (String × String)) : Cfg :=
     fltCondDirect := boolOf (arg kv "fltCondDirect"),
     keyChecked := boolOf (arg kv "keyChecked"),
     recreateKeepsPointer := boolOf (arg kv "recreateKeepsPointer"),
+    patchAsksFirst := boolOf (arg kv "patchAsksFirst"),
     saveReleasesImmediate := boolOf (arg kv "saveReleasesImmediate"),
     encoding := if arg kv "encoding" == "typeTagged" then .typeTagged else .gobOmitZero }
 
@@ -226,6 +227,7 @@ def tagId : Tag → String
   | .stickyFlags => "sticky-changed-flags"
   | .nanCond => "nan-condition-passes"
   | .unstorableKey => "unstorable-key-acknowledged"
+  | .patchGhost => "patch-summons-missing-swamp"
   | .metaNoCompare => "meta-always-changed"
   | .tsSubSecond => "preepoch-subsecond-accepted"
   | .voidNoClear => "set-void-keeps-value"
@@ -247,7 +249,7 @@ def tagPrio : Tag → Nat
   | .u32delDeadlock => 0 | .u32delNonSlice => 1 | .hiddenSlice => 2 | .voidNoClear => 3 | .sliceMerge => 4
   | .incFailTrace => 5 | .inflightReuse => 6 | .tsSubSecond => 7 | .metaNoCompare => 8 | .setErrDup => 9
   | .arekPrecondition => 10 | .countPrecondition => 11 | .zeroLikeDropped => 12 | .emptyLive => 13 | .resurrected => 0
-  | .stickyFlags => 14 | .nanCond => 4 | .unstorableKey => 0
+  | .stickyFlags => 14 | .nanCond => 4 | .unstorableKey => 0 | .patchGhost => 0
 
 def pickTag (tags : List Tag) : Option Tag :=
   tags.foldl (fun best t => match best with
@@ -276,6 +278,8 @@ structure DState where
   ticker : Bool := false      -- kind p1t: the 1 s write ticker is running
   /-- how a data request is answered (Driver.C30 plugs in the model that also keeps the expiry index) -/
   stepF : Cfg → Arith → Int → State → Req → Model.Out := Model.step
+  /-- the float setters decide "same value" on the bit pattern (false: with the float comparison) -/
+  fltBitwise : Bool := true
   byKey : Bool := false       -- case attribute sorted=1: claim replies are listed by key
   longSeen : Bool := false    -- a long key (`x@N`) occurred in this case: replies are compressed again
 
@@ -312,29 +316,57 @@ def compressLong (s : String) : String :=
 
 def kindOf (s : String) : Kind := if s.startsWith "mem" then .mem else if s.startsWith "p0" then .p0 else .p1
 
+/-- what a float setter that compares with `==` makes of a Set: a value equal to the stored one keeps
+    the stored bits (−0.0 over +0.0 changes nothing), a NaN never equals the stored NaN (the model is
+    handed a NaN with another payload: every NaN is shown alike) -/
+def fltByValue (ar : Arith) (s : State) : Req → Req
+  | .set c o items => .set c o (items.map fun it =>
+      match it.val, (AL.find it.key (Model.summon s).recs).map (·.c.vis) with
+      | .flt t b, some (.flt t0 b0) =>
+        if t != t0 then it
+        else if ar.feq t b0 b then { it with val := .flt t b0 }
+        else if b0 == b then { it with val := .flt t (if b % 2 == 0 then b + 1 else b - 1) }
+        else it
+      | _, _ => it)
+  | r => r
+
 def stepReq (d : DState) (f : List String) : DState × String :=
   match parseReq f with
   | none => (d, "bad-op")
-  | some req =>
+  | some req0 =>
+    -- the model answers the request as the setters see it; the Spec answers the request as sent
+    let req := if d.fltBitwise then req0 else fltByValue d.ar d.s req0
+    let byValue := !d.fltBitwise && (reprStr req != reprStr req0)
     let opNo := d.opNo + 1
     let now := d.ck.now + opNo
     let ck : Clock := { d.ck with nows := now :: d.ck.nows }
     let verb := f.headD ""
-    let o := d.stepF d.cfg d.ar now d.s req
+    let o0 := d.stepF d.cfg d.ar now d.s req
+    -- the same comparison in the Increment path: a NaN result never equals the stored NaN, so the float
+    -- setter replaces the whole content (a uint32 slice hidden behind the number goes with it)
+    let o : Model.Out := match req, d.fltBitwise, o0.r, o0.s.live with
+      | .inc (.flt _) k _ _ _ _, false, .inc (.flt t b) true _, some i =>
+        if (ieee.feq t b b) then o0
+        else { o0 with s := { o0.s with live := some { i with recs := i.recs.map fun p =>
+                 if p.1 == k then (p.1, { p.2 with c := { p.2.c with slice := none } }) else p } } }
+      | _, _, _, _ => o0
     let before := Model.abs d.s
-    let sp := Spec.step d.ar now before req
+    let sp := Spec.step d.ar now before req0
     let after := Model.abs o.s
     let devAny : Bool := !d.s.dead && (decide (sp.2 ≠ o.r) || decide (sp.1 ≠ after))
     let dev : Bool := devAny && d.pol == .c06
-    let tag := pickTag o.tags <|> d.lastTag
+    -- (an empty swamp that PatchTreasures left behind explains what the data requests then answer about it)
+    let tag := if d.lastTag == some Tag.patchGhost && (Model.abs d.s).isEmpty then d.lastTag else pickTag o.tags <|> d.lastTag
     -- (the one mechanism known to move an expiry past the index stays the explanation for the rest of the case)
     let lastTag := if d.pol == .c30 && (d.lastTag == some Tag.incFailTrace || o.tags.contains Tag.incFailTrace)
                    then some Tag.incFailTrace
+                   else if d.lastTag == some Tag.patchGhost && (Model.abs o.s).isEmpty && Model.exists_ o.s then d.lastTag
                    else match pickTag o.tags with | some t => some t | none => d.lastTag
     -- a deviation from the data-request Spec that this domain does not report is still marked
     -- (`#D:`), so that the independent reference knows the line is accounted for elsewhere (C06)
-    let flag := if dev then "\t#F:" ++ d.pid ++ "-" ++ (match tag with | some t => tagId t | none => "unattributed")
-                else if devAny then "\t#D:" ++ (match tag with | some t => tagId t | none => "unattributed") else ""
+    let name := if byValue then "float-set-compares-by-value" else (match tag with | some t => tagId t | none => "unattributed")
+    let flag := if dev then "\t#F:" ++ d.pid ++ "-" ++ name
+                else if devAny then "\t#D:" ++ name else ""
     ({ d with s := o.s, ck := ck, lastTag := lastTag, opNo := opNo }, showResp ck verb o.r ++ flag)
 
 
@@ -433,7 +465,7 @@ def stepLine (d : DState) (line0 : String) : DState × String :=
 
 def run (pid : String) (pol : Policy) (args : List String) : IO UInt32 := do
   let kv := parseArgs args
-  lineLoop stepLine { cfg := cfgOfArgs kv, pol := pol, pid := pid, ar := ieeeWith (boolOf (arg kv "wireExpNe0")) }
+  lineLoop stepLine { cfg := cfgOfArgs kv, pol := pol, pid := pid, fltBitwise := boolOf (arg kv "fltSetBitwise"), ar := ieeeWith (boolOf (arg kv "wireExpNe0")) }
   return 0
 
 end Driver.KV
